@@ -16,6 +16,7 @@ import (
 	"time"
 
 	"github.com/ErdemOzgen/blackdagger/internal/dag/scheduler"
+	dsclient "github.com/ErdemOzgen/blackdagger/internal/persistence/client"
 	"github.com/ErdemOzgen/blackdagger/internal/persistence/jsondb"
 	"github.com/ErdemOzgen/blackdagger/internal/persistence/model"
 )
@@ -253,6 +254,109 @@ func CrashSweep(self string, sc CrashScenario, base string, every int, emit func
 			"nack": nack, "k": p.k, "ncalls": len(lst.Calls), "sys": sys, "path": path, "torn": p.tear, "killed": res.Killed,
 			"ans": ans, "files": files, "sec": HistSec, "latestError": latestErr, "recentDup": recentDup, "emptyFile": emptyFile})
 		os.RemoveAll(filepath.Dir(dir))
+	}
+	return nil
+}
+
+// ---- C18: the save of a definition killed at every system call ---------------------------------------
+
+// SaveDriver is the traced child: it saves the text with the given id as definition `name`.
+func SaveDriver(dagsDir, name, textID string) {
+	ds := dsclient.NewDataStores(dagsDir, filepath.Join(filepath.Dir(dagsDir), "data"), filepath.Join(filepath.Dir(dagsDir), "susp"), dsclient.DataStoreOptions{})
+	text := apiTexts[textID]
+	if textID == "big" {
+		text = bigText()
+	}
+	_ = ds.DAGStore().UpdateSpec(name, []byte(text))
+}
+
+func bigText() string {
+	var sb strings.Builder
+	sb.WriteString("description: big\nsteps:\n")
+	for i := 0; i < 2000; i++ {
+		fmt.Fprintf(&sb, "  - name: step%d\n    command: echo %d\n", i, i)
+	}
+	return sb.String()
+}
+
+func SaveCrashSweep(self string, base string, emit func(Ev)) error {
+	texts := map[string]string{"A": apiTexts["A"], "B": apiTexts["B"], "big": bigText()}
+	id := func(b []byte, err error) string {
+		if err != nil {
+			return "absent"
+		}
+		for k, t := range texts {
+			if string(b) == t {
+				return k
+			}
+		}
+		if len(b) == 0 {
+			return "empty"
+		}
+		return fmt.Sprintf("partial:%d", len(b))
+	}
+	env := append(os.Environ(), "TZ=UTC")
+	devnull, _ := os.OpenFile(os.DevNull, os.O_WRONLY, 0)
+	defer devnull.Close()
+	n := 0
+	for _, tc := range [][2]string{{"A", "B"}, {"A", "big"}, {"big", "A"}} {
+		prep := func() (string, error) {
+			n++
+			dir := filepath.Join(base, fmt.Sprintf("save%d", n), "dags")
+			if err := os.MkdirAll(dir, 0o755); err != nil {
+				return "", err
+			}
+			os.WriteFile(filepath.Join(dir, "x.yaml"), []byte(texts[tc[0]]), 0o644)
+			os.WriteFile(filepath.Join(dir, "other.yaml"), []byte(texts["A"]), 0o644)
+			return dir, nil
+		}
+		dir, err := prep()
+		if err != nil {
+			return err
+		}
+		argv := func(d string) []string { return []string{self, "savedrv", "-dags", d, "-name", "x", "-text", tc[1]} }
+		lst, err := Supervise(argv(dir), env, dir, 0, -1, devnull)
+		os.RemoveAll(filepath.Dir(dir))
+		if err != nil {
+			return err
+		}
+		type point struct{ k, tear int }
+		var points []point
+		for _, c := range lst.Calls {
+			points = append(points, point{c.N, -1})
+			if c.Name == "write" && c.Len > 2 {
+				points = append(points, point{c.N, 1}, point{c.N, c.Len / 2}, point{c.N, c.Len - 1})
+			}
+		}
+		points = append(points, point{len(lst.Calls) + 1, -1})
+		for _, p := range points {
+			dir, err := prep()
+			if err != nil {
+				return err
+			}
+			killAt := p.k
+			if killAt > len(lst.Calls) {
+				killAt = 0
+			}
+			res, err := Supervise(argv(dir), env, dir, killAt, p.tear, devnull)
+			if err != nil {
+				return err
+			}
+			b, rerr := os.ReadFile(filepath.Join(dir, "x.yaml"))
+			ob, _ := os.ReadFile(filepath.Join(dir, "other.yaml"))
+			ents, _ := os.ReadDir(dir)
+			var names []string
+			for _, e := range ents {
+				names = append(names, e.Name())
+			}
+			sys := "none"
+			if killAt > 0 {
+				sys = lst.Calls[killAt-1].Name + " " + filepath.Base(lst.Calls[killAt-1].Path)
+			}
+			emit(Ev{"kind": "savecrash", "old": tc[0], "new": tc[1], "k": p.k, "ncalls": len(lst.Calls), "sys": sys, "torn": p.tear,
+				"killed": res.Killed, "content": id(b, rerr), "otherChanged": string(ob) != texts["A"], "dir": names})
+			os.RemoveAll(filepath.Dir(dir))
+		}
 	}
 	return nil
 }
